@@ -22,6 +22,7 @@ def families(tier, F):
         ("cp1",  fs.sync_consts(4, CpHs=(2,), MaxEnv=6, Findings=F, Emit="paths", Scenario="one checkpoint, cap 2")),
         ("nocp", fs.sync_consts(4, CpHs=(2,), CpEnabled=False, MaxEnv=6, Findings=F, Emit="paths", Scenario="checkpoints disabled")),
         ("cp2f", fs.sync_consts(4, F=3, ForkAt=0, CpHs=(2, 4), Cap=3, MaxEnv=6, Findings=F, Emit="paths", Scenario="two checkpoints, a node on a branch contradicting the first")),
+        ("scr", fs.sync_consts(3, CpHs=(2,), Cap=3, MaxEnv=6, MaxConnects=3, Findings=F, Emit="paths", Scenario="scripted kinds of events: every who/what/how of each script")),
         ("two", fs.sync_consts(3, F=2, ForkAt=1, F2=2, ForkAt2=1, CpHs=(2,), Cap=4, MaxEnv=5, Findings=F, Emit="paths", Scenario="two different branches contradicting the checkpoint, delivered by two nodes")),
         ("forb", fs.sync_consts(3, F=2, ForkAt=1, CpHs=(1,), Cap=4, Forbid=(4,), MaxEnv=6, Findings=F, Emit="paths", Scenario="forbidden header on a fork branch")),
         ("cptip", fs.sync_consts(5, CpHs=(5,), Cap=2, MaxEnv=5, Findings=F, Emit="paths", Scenario="last checkpoint at the honest tip")),
@@ -33,6 +34,30 @@ def families(tier, F):
                 ("fork", fs.sync_consts(4, F=4, ForkAt=2, CpHs=(2,), Cap=4, MaxEnv=6, Findings=F, Emit="paths", Scenario="competing longer fork after the checkpoint")),
                 ("p3", fs.sync_consts(4, CpHs=(2,), Peers=(1, 2, 3), MaxConnects=3, MaxEnv=6, Findings=F, Emit="paths", Scenario="three nodes"))]
     return fam
+
+
+# families whose environment follows scripts of event kinds drawn by the driver (plus a few fixed ones): every concrete
+# behaviour of every script is enumerated by TLC
+CURATED = [("connect", "reply", "connect", "announce", "close", "announce"),      # an announcement asked of a node that leaves, then announced by another
+           ("connect", "connect", "reply", "announce", "close", "announce"),
+           ("connect", "reply", "announce", "close", "connect", "reply"),
+           ("connect", "reply", "close", "connect", "reply", "announce"),
+           ("connect", "connect", "announce", "announce", "close", "reply")]
+def _scripts(n, length, extra=(), curated=True):
+    return lambda rng: sorted((set(CURATED) if curated else set()) | set(fs.random_scripts(rng, n, length, extra)))
+
+
+def scripts_for(tier):
+    """family tag -> script generator.  Quick tier: every family but the first is scripted (TLC then enumerates a few thousand
+    behaviours in seconds and ALL of them are replayed); thorough tier: the free enumerations as well (sampled)."""
+    n = 25 if tier == "quick" else 120
+    ln = 6 if tier == "quick" else 7
+    sc = {"scr": _scripts(n, ln), "nocp": _scripts(n, ln), "cp2f": _scripts(n, ln), "two": _scripts(n, ln), "forb": _scripts(n, ln),
+          "cptip": _scripts(n, ln), "raw": _scripts(n, ln, ("rawreply",)), "rst": _scripts(n, ln + 1, ("restart",))}
+    return sc
+
+
+SCRIPTS = scripts_for("quick")
 
 
 def exp_families(tier, F):
@@ -76,13 +101,18 @@ def sync_run(prop, tier, seed, kinds, replay_path):
             c.tlc_must_pass(r, "MC_Sync " + tag)
         c.log("  tlc sync %s: %d distinct states %.1fs" % (tag, r.distinct, r.wall))
         runs.append(r)
-    n_each = 500 if tier == "quick" else 6000
+    n_each = 3000 if tier == "quick" else 20000
     # generation (TLC, a few workers each) of the families runs three at a time; replays follow one after the other
     from concurrent.futures import ThreadPoolExecutor
     fams = families(tier, F)
+    SCRIPTS = scripts_for(tier)
+    if tier != "quick":
+        # thorough: every scripted family also runs free (uniform over concrete behaviours, sampled)
+        fams = fams + [(tag + "free", dict(consts)) for tag, consts in fams if tag in SCRIPTS and tag != "scr"]
     seeds = [rng.randrange(1 << 30) for _ in fams]
     with ThreadPoolExecutor(max_workers=2) as ex:
-        futs = [ex.submit(fs.generate, prop + tag, consts, n_each, random.Random(sd)) for (tag, consts), sd in zip(fams, seeds)]
+        futs = [ex.submit(fs.generate, prop + tag, consts, n_each, random.Random(sd), None, None, None, "ChoiceConstraint", SCRIPTS.get(tag) and SCRIPTS[tag](random.Random(sd)))
+                for (tag, consts), sd in zip(fams, seeds)]
         for (tag, consts), fu in zip(fams, futs):
             out, n, r = fu.result()
             runs.append(r)
